@@ -1007,6 +1007,8 @@ def mpf_mod(s, t, prec, rnd=round_fast):
     tsign, tman, texp, tbc = t
     if ((not sman) and sexp) or ((not tman) and texp):
         return fnan
+    if not tman:
+        raise ZeroDivisionError("mpf modulo by zero")
     # Important special case: do nothing if t is larger
     if ssign == tsign and texp > sexp+sbc:
         return mpf_pos(s, prec, rnd)
